@@ -462,6 +462,12 @@ def stepLine (st : St) (line : String) : St × String :=
       | .error .notActive => (st, s!"res=clientNotActive | {TMD.dump cl}")
       | .error .invalid => (st, s!"res=invalid | {TMD.dump cl}")
     | _, _, _, _, _, _, _, _ => bad
+  | ["tm.upgrade", name, num, den, period, drift, h0, t0, root, nextVals] =>
+    match st.tm name, num.toNat?, den.toNat?, period.toNat?, drift.toNat?, TMD.parseHeight h0, t0.toNat?, TMD.parseVals nextVals with
+    | some cl, some num, some den, some pd, some dr, some h0, some t0, some nv =>
+      let cl' := TM.upgrade cl num den pd dr h0 ⟨t0, root, TMD.Hv nv⟩
+      ({ st with tm := upd st.tm name (some cl') }, s!"res=ok | {TMD.dump cl'}")
+    | _, _, _, _, _, _, _, _ => bad
   | ["tm.status", name, now] =>
     match st.tm name, now.toNat? with
     | some cl, some now =>
